@@ -103,7 +103,9 @@ def getValues (n : Nat) (default : α) : Weights α → Except PyErr (List α)
   | .none => .ok (tab n fun _ => 1)
   | .arr v => if v.length = n then .ok v else .error .valueError
   | .dict kv =>
-    if kv.all (fun p => decide (p.1 < n)) then
+    -- `np.min(values_)` of an empty dict is numpy's ValueError
+    if kv.isEmpty then .error .valueError
+    else if kv.all (fun p => decide (p.1 < n)) then
       .ok (tab n fun i => match (kv.reverse.find? fun p => p.1 == i) with
                           | some p => p.2
                           | none => default)
@@ -186,7 +188,11 @@ def rh (g : Graph α) (a : α) (seeds : List α) (nIter : Nat) : List α :=
 def bicgstabResidual (g : Graph α) (a : α) (seeds : List α) (x : List α) (i : Nat) : α :=
   (x.getD i 0 - surferA g a x i) - (surferB g a seeds).getD i 0
 
-/-- `solver='bicgstab'` : `scores, info = bicgstab(I - rso.a, rso.b, atol=tol, x0=rso.b)`, then `scores / scores.sum()` -/
+/-- `scores, info = bicgstab(I - rso.a, rso.b, atol=tol, x0=rso.b); if info != 0: scores = spsolve(I - rso.a, rso.b)` :
+    `iter` is what BiCGSTAB returned, `direct` what the direct solver returned -/
+def bicgstabScores (info : Int) (iter direct : List α) : List α := if info = 0 then iter else direct
+
+/-- `solver='bicgstab'` : the scores above, then `scores / scores.sum()` -/
 def bicgstabBranch (n : Nat) (ext : List α) : List α := normalizeV n ext
 
 /-- `solver='lanczos'` : `_, scores = eigs(rso, k=1, tol=tol, v0=rso.b)`, `abs(scores.flatten().real)`, then `/ sum` -/
@@ -319,7 +325,13 @@ def katz (n : Nat) (edge : Nat → Nat → Bool) (a : α) (pathLength : Nat) : L
 
 /-! ### Closeness (`ranking/closeness.py`, method='exact') -/
 
-def natS (k : Nat) : α := (List.replicate k (1 : α)).foldl (· + ·) 0
+/-- the integer `k` as a scalar (C's int -> double conversion), by binary doubling -/
+def natS : Nat → α
+  | 0 => 0
+  | k+1 =>
+    let h : α := natS ((k+1) / 2)
+    if (k+1) % 2 = 1 then h + h + 1 else h + h
+decreasing_by omega
 
 def intS (z : Int) : α := if z < 0 then 0 - natS z.natAbs else natS z.natAbs
 
@@ -406,16 +418,20 @@ def betweenness (n : Nat) (nbr : Nat → List Nat) (symmetric : Bool) : Option (
   ((List.range n).foldlM (fun sc s => brandesSource n nbr sc s) (tab n fun _ => (0 : α))).map fun sc =>
     if symmetric then tab n fun i => (1 / (1 + 1)) * sc.getD i 0 else sc
 
-/-- `Betweenness().fit(adjacency)` with the checks of `fit` -/
-def betweennessFit (n nnz : Nat) (edge : Nat → Nat → Bool) (nbr : Nat → List Nat) (symmetric : Bool) :
-    Except PyErr (Option (List α)) :=
+/-- rows of `adjacency.copy(); sum_duplicates(); eliminate_zeros()` : the columns with a non-zero entry, ascending
+    (`edge i j` = entry `(i, j)` is not zero) -/
+def patternNbr (n : Nat) (edge : Nat → Nat → Bool) (i : Nat) : List Nat := (List.range n).filter (edge i)
+
+/-- `is_symmetric(adjacency.astype(bool).astype(int))` : the pattern of non-zero entries is symmetric -/
+def patternSymmetric (n : Nat) (edge : Nat → Nat → Bool) : Bool :=
+  (List.range n).all fun i => (List.range n).all fun j => edge i j == edge j i
+
+/-- `Betweenness().fit(adjacency)` : the checks of `fit`, then Brandes on the graph of the non-zero entries, halved when
+    that graph is undirected -/
+def betweennessFit (n nnz : Nat) (edge : Nat → Nat → Bool) : Except PyErr (Option (List α)) :=
   if nnz = 0 then .error .valueError
   else if !weaklyConnected n edge then .error .valueError
-  else .ok (betweenness n nbr symmetric)
-
-/-- `is_symmetric(adjacency)` : `(A - Aᵀ).nnz == 0` on the matrix of entries -/
-def isSymmetric [BEq α] (n : Nat) (w : Nat → Nat → α) : Bool :=
-  (List.range n).all fun i => (List.range n).all fun j => w i j == w j i
+  else .ok (betweenness n (patternNbr n edge) (patternSymmetric n edge))
 
 /-! ### HITS post-processing (`ranking/hits.py`) -/
 
